@@ -4,7 +4,9 @@ package sim
 // real first block through ProcBlock, and then certificates are presented as the `justify` of
 // correctly slotted, correctly signed blocks of height 2 to the consensus plugin's
 // CheckMinerMatch (the call ProcBlock makes); the last accepted candidate also goes through the
-// whole ProcBlock.
+// whole ProcBlock. xpoa plans with a validator change (C14Plan.VC) then go on in c14_vc.go: the
+// validator list is changed on chain and certificates are judged at every following height - under
+// the old list, at the boundary block and under the new list.
 
 import (
 	"bytes"
@@ -161,5 +163,11 @@ func execC14Chain(h *c14H) {
 		} else {
 			rc.St.Probes["chain-procblock-refused"]++
 		}
+	}
+	if p.VC != nil && p.Chain == "xpoa" {
+		// the validator list is changed on chain and certificates keep being judged (c14_vc.go)
+		hk.step = len(certs) + 1
+		execC14VC(h, &hk, n, certs)
+		h.listedAll, h.otherAll = hk.listedAll, hk.otherAll
 	}
 }
